@@ -118,3 +118,14 @@ Definition http_sys_code_gen (strict : bool) (cut : bool) (c : hsys_case) : N :=
 
 Definition http_sys_code := http_sys_code_gen false http_scrape_cut_before_split.
 Definition http_sys_mon := http_sys_code_gen true http_scrape_cut_before_split.
+
+(* real-time probe of C10 (harness `http-expiry-probe`): cleaning every [interval] s, max_peer_age
+   [age] s, one peer announced 3 s after start; counts scraped at about 8 s and 14.5 s: the peer
+   must still be there at 8 s (its deadline is 3 + age > 6 = the first cleaning pass) and gone
+   after the pass at 12 s *)
+Definition expiry_probe_code (c : N * N * list (Z * Z)) : N :=
+  let '(interval, age, obs) := c in
+  match obs with
+  | [(at8, at14)] => (if Z.eqb at8 1 && Z.eqb at14 0 then 0 else 1) * 4 + 3
+  | _ => 4 + 3
+  end.
